@@ -18,6 +18,7 @@ import (
 	"strings"
 
 	"github.com/golang/protobuf/proto"
+	"github.com/xuperchain/xupercore/bcs/ledger/xledger/state/utxo"
 	"github.com/xuperchain/xupercore/bcs/ledger/xledger/state/xmodel"
 	pb "github.com/xuperchain/xupercore/bcs/ledger/xledger/xldgpb"
 	xctx "github.com/xuperchain/xupercore/kernel/common/xcontext"
@@ -45,7 +46,8 @@ type Pending struct {
 	Resp    *protos.InvokeResponse
 	Tx      *pb.Transaction // assembled + signed (nil if Outcome == error)
 	R, W    []RW
-	X       [][2]int // contract transfers (user no, amount), change outputs aside
+	I       []int    // amounts of the token inputs the contract's transfers selected, in order
+	X       [][2]int // token outputs of the contract (user no, amount): payments and change, in order
 	E       []int
 	Used    int64
 	Gas     int64
@@ -53,13 +55,17 @@ type Pending struct {
 	FeeIdx  int // index of the `$` output in Tx.TxOutputs (-1 = none)
 	ChgIdx  int // index of the fee change output (-1 = none)
 	NConOut int // number of outputs created by the contract (prefix of Tx.TxOutputs)
+	NConIn  int // number of inputs selected by the contract (prefix of Tx.TxInputs)
 }
 
 type World struct {
 	fee     bool
 	n       *chainlib.Node
 	ch      *xuperos.Chain
-	users   []*xvlib.Account
+	users   []*xvlib.Account // 0 = initiator, 1 2 = receivers, 3 = the account the contracts pay from ("bank"), 4 = a bystander
+	bank    *xvlib.Account
+	sink    string // where the harness sweeps the bank's change outputs to (see sweep)
+	bankU   int64
 	miner   *xvlib.Account
 	txno    map[string]int
 	blocks  []*pb.InternalBlock
@@ -77,11 +83,33 @@ type Exec struct {
 	caseOut    []string
 	blockEvery int // block path for every n-th mutant (1 = all)
 	mutCount   int
+	trial      *[]string // a trial run of a shortened case (see shorten): violation keys are collected, nothing is reported
+}
+
+func (e *Exec) count(kind string) {
+	if e.trial == nil {
+		e.out.Count(kind)
+	}
 }
 
 func (e *Exec) violate(key, what string) {
+	if e.trial != nil {
+		*e.trial = append(*e.trial, key)
+		return
+	}
 	ops := append([]string{}, e.caseOps...)
 	impl := append([]string{}, e.caseOut...)
+	n := 0
+	for _, v := range e.out.Stats.Violations {
+		if v.Key == key {
+			n++
+		}
+	}
+	if n < 3 {
+		if o, i := e.shorten(key, ops); o != nil {
+			ops, impl = o, i
+		}
+	}
 	if len(impl) > 12 {
 		impl = impl[len(impl)-12:]
 	}
@@ -89,8 +117,52 @@ func (e *Exec) violate(key, what string) {
 	e.checkpoint()
 }
 
+// shorten: the replay of a violation is the case executed so far; most violations of a commit / mut line need only
+// the reset line, the pre-execution of the slot and the line itself. That shortened case is run on a fresh chain of
+// its own; if it shows the same key it is the replay.
+func (e *Exec) shorten(key string, ops []string) ([]string, []string) {
+	if len(ops) < 4 || !strings.HasPrefix(ops[0], "reset") {
+		return nil, nil
+	}
+	last := ops[len(ops)-1]
+	f := strings.Fields(last)
+	if len(f) < 3 || (f[0] != "commit" && f[0] != "mut") {
+		return nil, nil
+	}
+	pre := ""
+	for i := len(ops) - 2; i > 0; i-- {
+		if strings.HasPrefix(ops[i], "pre "+f[1]+" ") {
+			pre = ops[i]
+			break
+		}
+	}
+	if pre == "" {
+		return nil, nil
+	}
+	if f[0] == "commit" {
+		last = "commit " + f[1] + " 1"
+	}
+	short := []string{ops[0], pre, last}
+	var keys []string
+	t := &Exec{scratch: e.scratch + "-shorten", out: e.out, blockEvery: e.blockEvery, trial: &keys}
+	var impl []string
+	for _, l := range short {
+		impl = append(impl, t.exec(l))
+	}
+	kvmem.Drop(t.scratch)
+	for _, k := range keys {
+		if k == key {
+			return short, impl
+		}
+	}
+	return nil, nil
+}
+
 // checkpoint writes the statistics gathered so far (see supervise in main.go).
 func (e *Exec) checkpoint() {
+	if e.trial != nil {
+		return
+	}
 	st := e.out.Stats
 	if st.Samples == nil {
 		st.Samples = []interface{}{}
@@ -102,6 +174,9 @@ func (e *Exec) checkpoint() {
 
 // noteOp appends the op line about to be executed to the checkpoint of the current case.
 func (e *Exec) noteOp(line string, first bool) {
+	if e.trial != nil {
+		return
+	}
 	flag := os.O_CREATE | os.O_WRONLY | os.O_APPEND
 	if first {
 		flag = os.O_CREATE | os.O_WRONLY | os.O_TRUNC
@@ -129,12 +204,20 @@ func (w *World) userNo(addr []byte) int {
 	return -1
 }
 
-func (e *Exec) newWorld(fee bool) error {
+// bankNo is the user number of the account the test contracts pay from.
+const bankNo = 3
+
+// newWorld: a fresh chain. The bank owns bankN unspent outputs worth bankU each (all of the same worth: which of them a
+// selection takes then does not matter, so the amounts of the selected inputs and of the change are determined although
+// UtxoVM.SelectUtxos iterates a Go map; the harness sweeps away every other output the bank receives, see sweep).
+func (e *Exec) newWorld(fee bool, bankU int64, bankN int) error {
 	kvmem.Drop(e.scratch)
-	w := &World{fee: fee, txno: map[string]int{}, slots: map[string]*Pending{}}
-	for i := 0; i < 3; i++ {
+	w := &World{fee: fee, txno: map[string]int{}, slots: map[string]*Pending{}, bankU: bankU}
+	for i := 0; i < 5; i++ {
 		w.users = append(w.users, xvlib.NewAccount(10+i))
 	}
+	w.bank = w.users[bankNo]
+	w.sink = xvlib.NewAccount(30).Address
 	w.miner = xvlib.NewAccount(20)
 	g := &chainlib.Genesis{Alloc: map[string]string{}, NoFee: !fee, Award: "0"}
 	if fee {
@@ -154,7 +237,7 @@ func (e *Exec) newWorld(fee bool) error {
 	rb, _ := n.L.QueryBlock(n.L.GetMeta().RootBlockid)
 	w.blocks = []*pb.InternalBlock{rb}
 	e.w = w
-	// split the genesis output into 40 outputs of 1 000 000 and mine them
+	// split the genesis output into 40 outputs of 1 000 000 for the initiator and the bank's outputs, and mine them
 	root := rb.Transactions[0]
 	var ins []chainlib.Utxo
 	for i, o := range root.TxOutputs {
@@ -167,6 +250,15 @@ func (e *Exec) newWorld(fee bool) error {
 	for i := 0; i < 40; i++ {
 		outs = append(outs, chainlib.Out{To: u0, Amount: big.NewInt(1000000)})
 		total.Add(total, big.NewInt(1000000))
+	}
+	for i := 0; i < bankN; i++ {
+		outs = append(outs, chainlib.Out{To: w.bank.Address, Amount: big.NewInt(bankU)})
+		total.Add(total, big.NewInt(bankU))
+	}
+	// a bystander (user 4, never paid by a contract) owns 6 outputs of the same worth (mutation isub)
+	for i := 0; i < 6 && bankN > 0; i++ {
+		outs = append(outs, chainlib.Out{To: w.users[4].Address, Amount: big.NewInt(bankU)})
+		total.Add(total, big.NewInt(bankU))
 	}
 	sum := big.NewInt(0)
 	for _, u := range ins {
@@ -313,13 +405,14 @@ func (e *Exec) preexec(prog string) *Pending {
 		}
 		p.W = append(p.W, RW{B: bucketNo[o.Bucket], K: keyNo(o.Key), Val: valNo(o.Value)})
 	}
-	// contract transfers: the outputs the contract created, change (back to the initiator) aside
+	// the token side of the execution: the inputs its transfers selected, the outputs they created (payments and change)
+	for _, in := range resp.UtxoInputs {
+		p.I = append(p.I, int(new(big.Int).SetBytes(in.Amount).Int64()))
+	}
 	for _, o := range resp.UtxoOutputs {
-		if string(o.ToAddr) == u0.Address {
-			continue
-		}
 		p.X = append(p.X, [2]int{w.userNo(o.ToAddr), int(new(big.Int).SetBytes(o.Amount).Int64())})
 	}
+	e.checkTokenSide(p)
 	for _, o := range resp.Outputs {
 		if o.Bucket == xmodel.TransientBucket && string(o.Key) == "contractEvent" {
 			var evs []*protos.ContractEvent
@@ -339,6 +432,99 @@ func (e *Exec) preexec(prog string) *Pending {
 	return p
 }
 
+// requestedTransfers: the (receiver, amount) pairs of the xfer steps of a program, top level and nested, in order.
+func requestedTransfers(prog string) [][2]int {
+	var out [][2]int
+	for _, st := range strings.FieldsFunc(prog, func(r rune) bool { return r == ';' || r == ',' }) {
+		f := strings.Fields(st)
+		if len(f) > 0 && f[0] == "call" {
+			f = f[1:]
+		}
+		if len(f) == 3 && f[0] == "xfer" {
+			t, _ := strconv.Atoi(f[1])
+			a, _ := strconv.Atoi(f[2])
+			out = append(out, [2]int{t, a})
+		}
+	}
+	return out
+}
+
+// checkTokenSide: the impl-side oracle for the token effects a pre-execution returns (independent of the model):
+// what is declared in the write set (transient ContractUtxo.Inputs / Outputs) is what is returned as UtxoInputs /
+// UtxoOutputs; the inputs are distinct unspent outputs of the paying account and are worth exactly what the outputs are
+// worth; a call that ran to its end made every payment its program asks for, as often as it asks for it, and every
+// other output is change back to the paying account.
+func (e *Exec) checkTokenSide(p *Pending) {
+	w := e.w
+	resp := p.Resp
+	tmp := &pb.Transaction{TxOutputsExt: resp.Outputs}
+	dIn, err1 := xmodel.ParseContractUtxoInputs(tmp)
+	dOut, err2 := xmodel.ParseContractUtxoOutputs(tmp)
+	same := err1 == nil && err2 == nil && len(dIn) == len(resp.UtxoInputs) && len(dOut) == len(resp.UtxoOutputs)
+	for i := 0; same && i < len(dIn); i++ {
+		same = proto.Equal(dIn[i], resp.UtxoInputs[i])
+	}
+	for i := 0; same && i < len(dOut); i++ {
+		same = proto.Equal(dOut[i], resp.UtxoOutputs[i])
+	}
+	if !same {
+		e.violate("preexec-token-declaration-differs", fmt.Sprintf("PreExec(%q): the contract inputs / outputs declared in the write set (%d / %d) are not the returned UtxoInputs / UtxoOutputs (%d / %d)",
+			p.Prog, len(dIn), len(dOut), len(resp.UtxoInputs), len(resp.UtxoOutputs)))
+	}
+	if len(resp.UtxoInputs) == 0 && len(resp.UtxoOutputs) == 0 {
+		return
+	}
+	unspent := map[string]string{}
+	for _, r := range w.n.ScanTable(pb.UTXOTablePrefix + w.bank.Address + "_") {
+		it := &utxo.UtxoItem{}
+		if it.Loads([]byte(r[1])) == nil {
+			unspent[r[0]] = it.Amount.String()
+		}
+	}
+	sumIn, sumOut := big.NewInt(0), big.NewInt(0)
+	seen := map[string]bool{}
+	for _, in := range resp.UtxoInputs {
+		k := utxo.GenUtxoKeyWithPrefix(in.FromAddr, in.RefTxid, in.RefOffset)
+		amt := new(big.Int).SetBytes(in.Amount)
+		sumIn.Add(sumIn, amt)
+		if seen[k] {
+			e.violate("contract-input-duplicated", fmt.Sprintf("PreExec(%q) returns the token input %s twice", p.Prog, k))
+		}
+		seen[k] = true
+		if string(in.FromAddr) != w.bank.Address || unspent[k] != amt.String() {
+			e.violate("contract-input-not-spendable", fmt.Sprintf("PreExec(%q) returns the token input %s worth %s, which is not an unspent output of the paying account worth that (%q)", p.Prog, k, amt, unspent[k]))
+		}
+	}
+	for _, o := range resp.UtxoOutputs {
+		sumOut.Add(sumOut, new(big.Int).SetBytes(o.Amount))
+	}
+	if sumIn.Cmp(sumOut) != 0 {
+		e.violate("contract-transfer-not-conserved", fmt.Sprintf("PreExec(%q): token inputs worth %s, token outputs worth %s", p.Prog, sumIn, sumOut))
+	}
+	if p.Outcome == "ok" {
+		rest := append([][2]int{}, p.X...)
+		for _, rq := range requestedTransfers(p.Prog) {
+			found := -1
+			for i, x := range rest {
+				if x == rq {
+					found = i
+					break
+				}
+			}
+			if found < 0 {
+				e.violate("contract-transfer-missing", fmt.Sprintf("PreExec(%q) ran to its end but its token outputs %v lack the payment %v (or hold it less often than the program makes it)", p.Prog, p.X, rq))
+				return
+			}
+			rest = append(rest[:found:found], rest[found+1:]...)
+		}
+		for _, x := range rest {
+			if x[0] != bankNo {
+				e.violate("contract-output-unrequested", fmt.Sprintf("PreExec(%q): token output %v is neither a payment of the program nor change to the paying account (outputs %v)", p.Prog, x, p.X))
+			}
+		}
+	}
+}
+
 // assemble builds the transaction a client builds from a pre-execution response: requests with the
 // returned resource limits, read set, write set, the contract's token inputs / outputs, and on a
 // fee chain the `$` output paying the returned gas (inputs selected from the initiator, change back).
@@ -353,6 +539,7 @@ func (e *Exec) assemble(p *Pending) (*pb.Transaction, error) {
 	tx.TxInputs = append(tx.TxInputs, resp.UtxoInputs...)
 	tx.TxOutputs = append(tx.TxOutputs, resp.UtxoOutputs...)
 	p.NConOut = len(resp.UtxoOutputs)
+	p.NConIn = len(resp.UtxoInputs)
 	if w.fee {
 		need := big.NewInt(p.Gas)
 		if p.Gas == 0 {
@@ -396,6 +583,10 @@ func rwLine(p *Pending) string {
 	sb.WriteString(" W")
 	for _, x := range p.W {
 		fmt.Fprintf(&sb, " %d:%d=%d", x.B, x.K, x.Val)
+	}
+	sb.WriteString(" I")
+	for _, x := range p.I {
+		fmt.Fprintf(&sb, " %d", x)
 	}
 	sb.WriteString(" X")
 	for _, x := range p.X {
@@ -514,6 +705,80 @@ func valOf(n int) []byte {
 		return []byte("\x00")
 	}
 	return []byte("v" + strconv.Itoa(n))
+}
+
+// idxArg: the optional index argument of a token mutation.
+func idxArg(args []string, dflt int) (int, bool) {
+	if len(args) == 0 {
+		return dflt, true
+	}
+	if len(args) != 1 {
+		return 0, false
+	}
+	j, err := strconv.Atoi(args[0])
+	return j, err == nil && j >= 0
+}
+
+// otherTo: the receiver a re-routed output goes to: the initiator, or user 1 if it is the initiator's already.
+func (e *Exec) otherTo(to []byte) string {
+	if string(to) == e.w.users[0].Address {
+		return e.w.users[1].Address
+	}
+	return e.w.users[0].Address
+}
+
+// unlessStillPaid: the verdict the property fixes for a transaction whose real outputs were tampered with: it must be
+// refused, unless its outputs still hold every token output of the contract as often as the contract made it (an
+// identical output of the initiator's own - the change of the fee inputs - can stand in for the one that was taken
+// away: the initiator then gives away his own change, which he is free to do). The generator avoids that coincidence.
+func (e *Exec) unlessStillPaid(p *Pending, tx *pb.Transaction) string {
+	have := map[[2]int]int{}
+	for _, o := range tx.TxOutputs {
+		have[[2]int{e.w.userNo(o.ToAddr), int(new(big.Int).SetBytes(o.Amount).Int64())}]++
+	}
+	for _, x := range p.X {
+		if have[x] < 1 {
+			return "reject"
+		}
+		have[x]--
+	}
+	return ""
+}
+
+// setTransient replaces the value of the transient write-set entry `key` by the marshalled messages (the entry is
+// created in front if the write set has none; an empty list removes it).
+func setTransient(tx *pb.Transaction, key string, msgs interface{}) bool {
+	var buf []byte
+	var err error
+	n := 0
+	switch m := msgs.(type) {
+	case []*protos.TxInput:
+		n = len(m)
+		buf, err = xmodel.MarshalMessages(m)
+	case []*protos.TxOutput:
+		n = len(m)
+		buf, err = xmodel.MarshalMessages(m)
+	default:
+		return false
+	}
+	if err != nil {
+		return false
+	}
+	for i, o := range tx.TxOutputsExt {
+		if o.Bucket == xmodel.TransientBucket && string(o.Key) == key {
+			if n == 0 {
+				tx.TxOutputsExt = append(tx.TxOutputsExt[:i:i], tx.TxOutputsExt[i+1:]...)
+			} else {
+				o.Value = buf
+			}
+			return true
+		}
+	}
+	if n == 0 {
+		return true
+	}
+	tx.TxOutputsExt = append([]*protos.TxOutputExt{{Bucket: xmodel.TransientBucket, Key: []byte(key), Value: buf}}, tx.TxOutputsExt...)
+	return true
 }
 
 // mutate applies one mutation class to a copy of the pending transaction. Returns (nil, "n/a") when the
@@ -639,49 +904,158 @@ func (e *Exec) mutate(p *Pending, class string, args []string) (tx *pb.Transacti
 			}
 		}
 		expect = "reject"
-	case "fee": // the `$` output pays less than the gas of the declared limits; the change grows so that sums still match
-		if p.FeeIdx < 0 || p.ChgIdx < 0 {
+	case "fee": // the `$` output pays less than the gas of the declared limits; the initiator's change grows (or, if the fee
+		// inputs left no change, a new output to the initiator takes the difference) so that sums still match
+		if p.FeeIdx < 0 {
 			return nil, "n/a"
 		}
 		tx.TxOutputs[p.FeeIdx].Amount = big.NewInt(p.Gas - 1).Bytes()
-		chg := new(big.Int).SetBytes(tx.TxOutputs[p.ChgIdx].Amount)
-		tx.TxOutputs[p.ChgIdx].Amount = chg.Add(chg, big.NewInt(1)).Bytes()
+		if p.ChgIdx >= 0 {
+			chg := new(big.Int).SetBytes(tx.TxOutputs[p.ChgIdx].Amount)
+			tx.TxOutputs[p.ChgIdx].Amount = chg.Add(chg, big.NewInt(1)).Bytes()
+		} else {
+			tx.TxOutputs = append(tx.TxOutputs, &protos.TxOutput{ToAddr: []byte(w.users[0].Address), Amount: big.NewInt(1).Bytes()})
+		}
 		expect = "reject"
-	case "nofee": // no `$` output at all
-		if p.FeeIdx < 0 || p.ChgIdx < 0 {
+	case "nofee": // no `$` output at all: what it paid goes back to the initiator
+		if p.FeeIdx < 0 {
 			return nil, "n/a"
 		}
-		chg := new(big.Int).SetBytes(tx.TxOutputs[p.ChgIdx].Amount)
-		tx.TxOutputs[p.ChgIdx].Amount = chg.Add(chg, big.NewInt(p.Gas)).Bytes()
-		tx.TxOutputs = append(tx.TxOutputs[:p.FeeIdx:p.FeeIdx], tx.TxOutputs[p.FeeIdx+1:]...)
+		if p.ChgIdx >= 0 {
+			chg := new(big.Int).SetBytes(tx.TxOutputs[p.ChgIdx].Amount)
+			tx.TxOutputs[p.ChgIdx].Amount = chg.Add(chg, big.NewInt(p.Gas)).Bytes()
+			tx.TxOutputs = append(tx.TxOutputs[:p.FeeIdx:p.FeeIdx], tx.TxOutputs[p.FeeIdx+1:]...)
+		} else {
+			tx.TxOutputs[p.FeeIdx].ToAddr = []byte(w.users[0].Address)
+		}
 		expect = "reject"
-	case "xroute": // a contract-originated output goes to another address, same amount
-		i := -1
+	case "xroute": // the contract's real output number j goes to another address, same amount
+		j, ok := idxArg(args, 0)
+		if !ok || j >= p.NConOut {
+			return nil, "n/a"
+		}
+		tx.TxOutputs[j].ToAddr = []byte(e.otherTo(tx.TxOutputs[j].ToAddr))
+		expect = e.unlessStillPaid(p, tx)
+	case "xamt": // the contract's real output number j (default: the first worth more than 1) is lowered by 1, the difference goes to the initiator
+		dflt := p.NConOut
 		for j := 0; j < p.NConOut; j++ {
-			if string(tx.TxOutputs[j].ToAddr) != w.users[0].Address {
-				i = j
+			if new(big.Int).SetBytes(tx.TxOutputs[j].Amount).Int64() > 1 {
+				dflt = j
 				break
 			}
 		}
-		if i < 0 {
+		j, ok := idxArg(args, dflt)
+		if !ok || j >= p.NConOut || new(big.Int).SetBytes(tx.TxOutputs[j].Amount).Int64() <= 1 {
 			return nil, "n/a"
 		}
-		tx.TxOutputs[i].ToAddr = []byte(w.users[0].Address)
-		expect = "reject"
-	case "xamt": // a contract-originated output is lowered, the difference goes to the initiator
-		i := -1
-		for j := 0; j < p.NConOut; j++ {
-			if string(tx.TxOutputs[j].ToAddr) != w.users[0].Address && new(big.Int).SetBytes(tx.TxOutputs[j].Amount).Int64() > 1 {
-				i = j
-				break
-			}
-		}
-		if i < 0 {
-			return nil, "n/a"
-		}
-		a := new(big.Int).SetBytes(tx.TxOutputs[i].Amount)
-		tx.TxOutputs[i].Amount = a.Sub(a, big.NewInt(1)).Bytes()
+		a := new(big.Int).SetBytes(tx.TxOutputs[j].Amount)
+		tx.TxOutputs[j].Amount = a.Sub(a, big.NewInt(1)).Bytes()
 		tx.TxOutputs = append(tx.TxOutputs, &protos.TxOutput{ToAddr: []byte(w.users[0].Address), Amount: big.NewInt(1).Bytes()})
+		expect = e.unlessStillPaid(p, tx)
+	case "xboth": // output number j goes to another address in the declaration (transient ContractUtxo.Outputs) and in the real outputs alike
+		j, ok := idxArg(args, 0)
+		dOut, err := xmodel.ParseContractUtxoOutputs(tx)
+		if !ok || err != nil || j >= p.NConOut || j >= len(dOut) {
+			return nil, "n/a"
+		}
+		to := e.otherTo(dOut[j].ToAddr)
+		dOut[j].ToAddr = []byte(to)
+		tx.TxOutputs[j].ToAddr = []byte(to)
+		if !setTransient(tx, "ContractUtxo.Outputs", dOut) {
+			return nil, "n/a"
+		}
+		expect = "reject"
+	case "xswap": // the first two declared contract outputs change places (declaration only)
+		dOut, err := xmodel.ParseContractUtxoOutputs(tx)
+		if err != nil || len(dOut) < 2 || proto.Equal(dOut[0], dOut[1]) {
+			return nil, "n/a"
+		}
+		dOut[0], dOut[1] = dOut[1], dOut[0]
+		if !setTransient(tx, "ContractUtxo.Outputs", dOut) {
+			return nil, "n/a"
+		}
+	case "idrop": // declared contract input number j is dropped from the declaration (the real input stays)
+		j, ok := idxArg(args, 0)
+		dIn, err := xmodel.ParseContractUtxoInputs(tx)
+		if !ok || err != nil || j >= len(dIn) {
+			return nil, "n/a"
+		}
+		dIn = append(dIn[:j:j], dIn[j+1:]...)
+		if !setTransient(tx, "ContractUtxo.Inputs", dIn) {
+			return nil, "n/a"
+		}
+		expect = "reject"
+	case "iswap": // the first two declared contract inputs change places
+		dIn, err := xmodel.ParseContractUtxoInputs(tx)
+		if err != nil || len(dIn) < 2 {
+			return nil, "n/a"
+		}
+		dIn[0], dIn[1] = dIn[1], dIn[0]
+		if !setTransient(tx, "ContractUtxo.Inputs", dIn) {
+			return nil, "n/a"
+		}
+	case "iadd": // a further unspent output of the paying account is declared as a contract input (no signature of its owner
+		// is asked for a declared contract input), spent as a real input and paid out to the initiator
+		ins, _, total, err := w.n.S.SelectUtxos(w.bank.Address, big.NewInt(1), true, false)
+		if err != nil || len(ins) != 1 {
+			return nil, "n/a"
+		}
+		dIn, err := xmodel.ParseContractUtxoInputs(tx)
+		if err != nil {
+			return nil, "n/a"
+		}
+		dIn = append(dIn, ins[0])
+		if !setTransient(tx, "ContractUtxo.Inputs", dIn) {
+			return nil, "n/a"
+		}
+		tx.TxInputs = append(tx.TxInputs, ins[0])
+		tx.TxOutputs = append(tx.TxOutputs, &protos.TxOutput{ToAddr: []byte(w.users[0].Address), Amount: total.Bytes()})
+		expect = "reject"
+	case "isub": // declared contract input number j and the real input spending it are replaced by an output of the same
+		// worth that belongs to a bystander (no signature of the owner is asked for a declared contract input)
+		j, ok := idxArg(args, 0)
+		dIn, err := xmodel.ParseContractUtxoInputs(tx)
+		if !ok || err != nil || j >= len(dIn) || j >= p.NConIn {
+			return nil, "n/a"
+		}
+		need := new(big.Int).SetBytes(dIn[j].Amount)
+		if need.Int64() != w.bankU {
+			return nil, "n/a"
+		}
+		ins, _, _, err := w.n.S.SelectUtxos(w.users[4].Address, need, true, false)
+		if err != nil || len(ins) != 1 {
+			return nil, "n/a"
+		}
+		dIn[j] = ins[0]
+		tx.TxInputs[j] = ins[0]
+		if !setTransient(tx, "ContractUtxo.Inputs", dIn) {
+			return nil, "n/a"
+		}
+		expect = "reject"
+	case "inreal", "ishort":
+		// inreal: the real input spending declared contract input number j is replaced by outputs of the initiator;
+		// ishort: that declared contract input is dropped from the declaration as well, so the transaction balances
+		// but the declared contract inputs no longer cover the contract's transfers
+		j, ok := idxArg(args, 0)
+		dIn, perr := xmodel.ParseContractUtxoInputs(tx)
+		if !ok || perr != nil || j >= p.NConIn || j >= len(dIn) {
+			return nil, "n/a"
+		}
+		need := new(big.Int).SetBytes(tx.TxInputs[j].Amount)
+		ins, _, total, err := w.n.S.SelectUtxos(w.users[0].Address, need, true, false)
+		if err != nil {
+			return nil, "n/a"
+		}
+		tx.TxInputs = append(append(tx.TxInputs[:j:j], tx.TxInputs[j+1:]...), ins...)
+		if chg := new(big.Int).Sub(total, need); chg.Sign() > 0 {
+			tx.TxOutputs = append(tx.TxOutputs, &protos.TxOutput{ToAddr: []byte(w.users[0].Address), Amount: chg.Bytes()})
+		}
+		if class == "ishort" {
+			dIn = append(dIn[:j:j], dIn[j+1:]...)
+			if !setTransient(tx, "ContractUtxo.Inputs", dIn) {
+				return nil, "n/a"
+			}
+		}
 		expect = "reject"
 	case "xdecl": // the declared transfer (transient ContractUtxo.Outputs) is dropped from the write set
 		i := -1
@@ -813,8 +1187,18 @@ func (e *Exec) exec(line string) (ans string) {
 func (e *Exec) exec1(f []string, line string) string {
 	switch f[0] {
 	case "reset":
-		fee := len(f) > 1 && f[1] == "fee=1"
-		if err := e.newWorld(fee); err != nil {
+		if len(f) < 2 || len(f) > 3 || (f[1] != "fee=0" && f[1] != "fee=1") {
+			return "bad-op"
+		}
+		bankU, bankN := int64(1000000), 40
+		if len(f) == 3 {
+			var u, n int
+			if c, err := fmt.Sscanf(f[2], "bank=%dx%d", &u, &n); c != 2 || err != nil || u <= 0 || n < 0 || n > 1000 || int64(u)*int64(n+6) > 50000000 {
+				return "bad-op"
+			}
+			bankU, bankN = int64(u), n
+		}
+		if err := e.newWorld(f[1] == "fee=1", bankU, bankN); err != nil {
 			return "error:" + err.Error()
 		}
 		return "ok"
@@ -829,7 +1213,7 @@ func (e *Exec) exec1(f []string, line string) string {
 		if after := observe(e.w.n, e.w).String(); after != before {
 			e.violate("preexec-changed-state", fmt.Sprintf("PreExec of %q changed the state: before {%s} after {%s}", prog, before, after))
 		}
-		e.out.Count("pre:" + p.Outcome)
+		e.count("pre:" + p.Outcome)
 		if p.Outcome == "error" {
 			return "error"
 		}
@@ -882,13 +1266,17 @@ func (e *Exec) commit(p *Pending, id int) string {
 			key := "preexec-not-accepted"
 			if nestedExceeds(p.Prog) {
 				key = "preexec-not-accepted:nested-call-resources"
+			} else if len(p.I) > 0 {
+				// the call made token transfers: say how they were covered (the token side of the re-execution
+				// runs over sandbox.UTXOReader of the declared inputs)
+				key = "preexec-not-accepted:transfer" + e.coverShape(p)
 			}
 			e.violate(key, fmt.Sprintf("the transaction assembled from PreExec(%q) was refused against the same state: %v", p.Prog, err))
 		}
-		e.out.Count("commit:reject")
+		e.count("commit:reject")
 		return "reject"
 	}
-	e.out.Count("commit:accept")
+	e.count("commit:accept")
 	if stale {
 		e.violate("stale-read-accepted", fmt.Sprintf("transaction of %q accepted although a key of its read set was overwritten after its pre-execution", p.Prog))
 	}
@@ -897,7 +1285,53 @@ func (e *Exec) commit(p *Pending, id int) string {
 	}
 	w.txno[string(p.Tx.Txid)] = id
 	e.checkDelta(p, p.Tx, before, after, "commit")
+	e.sweep(p)
 	return "accept"
+}
+
+// coverShape classifies how the transfers of a pre-execution were covered by the inputs selected for them:
+// ":exact" if some transfer left no change (fewer outputs than two per payment), else "".
+func (e *Exec) coverShape(p *Pending) string {
+	if rq := requestedTransfers(p.Prog); len(p.X) < 2*len(rq) {
+		return ":exact"
+	}
+	return ""
+}
+
+// sweep: every output of an accepted transaction that went to the paying account (change of a contract transfer, a
+// payment to the account itself) is spent at once by a plain transfer of that account to a sink address, so that the
+// account's unspent outputs stay all of the same worth (see newWorld); likewise every payment of the contract to the
+// initiator, so that the inputs selected for the fee stay large and their change cannot be worth what a small contract
+// output is worth (see unlessStillPaid). That the outputs the commit created can be spent is part of "committing it
+// changes exactly the outputs of that write set".
+func (e *Exec) sweep(p *Pending) {
+	w := e.w
+	tx := p.Tx
+	for _, owner := range []*xvlib.Account{w.bank, w.users[0]} {
+		var ins []chainlib.Utxo
+		total := big.NewInt(0)
+		for i, o := range tx.TxOutputs {
+			if string(o.ToAddr) == owner.Address && (owner == w.bank || i < p.NConOut) {
+				a := new(big.Int).SetBytes(o.Amount)
+				ins = append(ins, chainlib.Utxo{Addr: owner.Address, RefTx: tx.Txid, Offset: int32(i), Amount: a})
+				total.Add(total, a)
+			}
+		}
+		if len(ins) == 0 {
+			continue
+		}
+		st, err := chainlib.TransferTx(owner, ins, []chainlib.Out{{To: w.sink, Amount: total}}, "sweep")
+		if err == nil {
+			if ok, verr := w.n.S.VerifyTx(st); verr != nil || !ok {
+				err = fmt.Errorf("verify: %v", verr)
+			} else if derr := w.n.S.DoTx(st); derr != nil {
+				err = fmt.Errorf("dotx: %v", derr)
+			}
+		}
+		if err != nil {
+			e.violate("contract-output-not-spendable", fmt.Sprintf("the outputs the accepted transaction created for %s cannot be spent by their owner: %v", owner.Address, err))
+		}
+	}
 }
 
 // isStale: some declared read of the pending transaction is no longer the current version.
@@ -983,23 +1417,22 @@ func (e *Exec) checkDelta(p *Pending, tx *pb.Transaction, before, after *Obs, ta
 	if len(rd) > 0 {
 		e.violate("commit-rows-differ", fmt.Sprintf("%s of %q: raw ZU/ZD rows differ from rows before + write set at %s", tag, p.Prog, strings.Join(rd, ",")))
 	}
-	// transfers
-	paid := int64(0)
+	// transfers: every receiver gains what the contract's outputs give it, the paying account loses the inputs the
+	// contract selected (and gains its change), the initiator pays the fee
 	gain := map[int]int64{}
 	for _, x := range p.X {
 		gain[x[0]] += int64(x[1])
-		paid += int64(x[1])
 	}
+	for _, a := range p.I {
+		gain[bankNo] -= int64(a)
+	}
+	gain[0] -= p.Gas
 	for i := range e.w.users {
 		b0, _ := new(big.Int).SetString(before.Bal[i], 10)
 		b1, _ := new(big.Int).SetString(after.Bal[i], 10)
 		d := new(big.Int).Sub(b1, b0).Int64()
-		wantD := gain[i]
-		if i == 0 {
-			wantD = -paid - p.Gas
-		}
-		if d != wantD {
-			e.violate("transfer-not-effective", fmt.Sprintf("%s of %q: balance of u%d changed by %d, the contract's transfers %v (+ fee %d) require %d", tag, p.Prog, i, d, p.X, p.Gas, wantD))
+		if d != gain[i] {
+			e.violate("transfer-not-effective", fmt.Sprintf("%s of %q: balance of u%d changed by %d, the contract's token inputs %v and outputs %v (+ fee %d) require %d", tag, p.Prog, i, d, p.I, p.X, p.Gas, gain[i]))
 		}
 	}
 }
@@ -1031,7 +1464,7 @@ func (e *Exec) mut(p *Pending, class string, args []string) string {
 		cb := observe(c, w)
 		if derr := c.S.DoTx(cloneTx(tx)); derr == nil {
 			verdict = "accept"
-			if class == "same" || class == "wperm" || class == "radd" {
+			if class == "same" || class == "wperm" || class == "radd" || class == "iswap" {
 				e.checkDelta(p, tx, cb, observe(c, w), "mutant "+class)
 			}
 		} else if ca := observe(c, w); ca.String() != cb.String() {
@@ -1054,7 +1487,7 @@ func (e *Exec) mut(p *Pending, class string, args []string) string {
 			e.violate("verifytx-accepts-stale-read", fmt.Sprintf("VerifyTx accepted the %s mutant %v of %q although a declared read is not the current version (only DoTx refused it)", class, args, p.Prog))
 		}
 	}
-	e.out.Count("mut:" + class + ":" + verdict + stage)
+	e.count("mut:" + class + ":" + verdict + stage)
 	if blockRun && blockOK != (verdict == "accept") {
 		e.violate("block-path-differs:"+class, fmt.Sprintf("mutant %s %v of %q: submission says %s, a replica playing a block with it says accept=%v", class, args, p.Prog, verdict, blockOK))
 	}
@@ -1064,7 +1497,21 @@ func (e *Exec) mut(p *Pending, class string, args []string) string {
 	}
 	if expect != "" && expect != verdict {
 		if verdict == "accept" {
-			e.violate("tampered-accepted:"+class, fmt.Sprintf("mutant %s %v of the transaction of %q was accepted (VerifyTx + DoTx)", class, args, p.Prog))
+			key := "tampered-accepted:" + class
+			if j, ok := idxArg(args, 0); (class == "xroute" || class == "xamt") && len(args) == 1 && ok && j < len(p.X) {
+				// another root cause than a missing comparison: the re-routed output has an identical twin among the
+				// contract's outputs, which still stands for it
+				n := 0
+				for _, x := range p.X {
+					if x == p.X[j] {
+						n++
+					}
+				}
+				if n > 1 {
+					key += ":twin"
+				}
+			}
+			e.violate(key, fmt.Sprintf("mutant %s %v of the transaction of %q was accepted (VerifyTx + DoTx)", class, args, p.Prog))
 		} else {
 			e.violate("valid-rejected:"+class, fmt.Sprintf("variant %s %v of the transaction of %q was refused", class, args, p.Prog))
 		}
